@@ -1,5 +1,6 @@
 import Percival.Driver.Loop
 import Percival.Model.Http
+import Percival.Model.HttpRes
 import Percival.Model.HttpRequest
 import Percival.Spec.HttpResp
 /-! `pmodel http`: line protocol for http/http.c (C08/C09).  Driver code: the concrete buffered reader
@@ -48,6 +49,8 @@ structure Cfg where
   conn : Nat := 0
   sndfail : Option Nat := none
   cancel : Option Nat := none
+  /-- cancel after the j-th `recv()` call returned (between two segments) -/
+  cancelRecv : Option Nat := none
   early : Bool := false
   /-- the response as a value (well-formed generator): blocks in reverse order, then the whole value -/
   wfBlocks : List Spec.HttpResp.Block := []
@@ -63,9 +66,16 @@ structure Reader where
   idx : Nat := 0             -- next entry of the segment list
   curseg : Nat := 0          -- what is left of the current segment
   endReset : Bool
+  -- the rest of the environment (`Model.HttpRes.Turn`): the caller and the writer
+  nq : Nat := 0              -- waits answered so far
+  nrecv : Nat := 0           -- recv() calls so far
+  cancelWait : Option Nat := none   -- cancel right after the k-th `netbuf_read_wait` (k ≥ 1)
+  cancelRecv : Option Nat := none   -- cancel after the event-loop callback which made the j-th recv() call
+  failWrote : Option Nat := none    -- send() fails after this many request buffers were written completely
 
 /-- one `recv(space)`: none = EAGAIN, some 0 = EOF/err marker handled by caller -/
 def recvOne (r : Reader) (space : Nat) : Reader × Option Nat :=
+  let r := { r with nrecv := r.nrecv + 1 }
   if r.remaining == 0 then (r, some 0) else
   match r.seg with
   | .whole =>
@@ -82,25 +92,49 @@ def recvOne (r : Reader) (space : Nat) : Reader × Option Nat :=
       let n := min (min r.curseg space) r.remaining
       ({ r with curseg := r.curseg - n, remaining := r.remaining - n }, some n)
 
-/-- keep receiving until `k` bytes are buffered (fuel: every non-EAGAIN recv makes progress) -/
-def fill (k : Nat) : Nat → Reader → Reader × Http.Arrival
-  | 0, r => (r, .err)
+/-- the j-th recv() call has been made: the harness cancels when the event-loop callback which made it returns -/
+def armed (r : Reader) : Bool :=
+  match r.cancelRecv with
+  | some j => r.nrecv ≥ j
+  | none => false
+
+/-- keep receiving until `k` bytes are buffered (fuel: every non-EAGAIN recv makes progress);
+    `none` = the caller cancels while this wait is still pending -/
+def fill (k : Nat) : Nat → Reader → Reader × Option Http.Arrival
+  | 0, r => (r, some .err)
   | f + 1, r =>
-    if r.datalen - r.bufpos ≥ k then (r, .more (r.datalen - r.bufpos - k)) else
+    if r.datalen - r.bufpos ≥ k then (r, some (.more (r.datalen - r.bufpos - k))) else
+    if armed r then (r, none) else
     match recvOne r (r.cap - r.datalen) with
     | (r', none) => fill k f r'
-    | (r', some 0) => (r', if r.endReset then .err else .eof)
+    | (r', some 0) => (r', some (if r.endReset then .err else .eof))
     | (r', some n) => fill k f { r' with datalen := r'.datalen + n }
 
-def readerWait (r : Reader) (c k : Nat) : Reader × Http.Arrival :=
+def readerWait (r : Reader) (c k : Nat) : Reader × Option Http.Arrival :=
   let r := { r with bufpos := r.bufpos + c }
-  if r.datalen - r.bufpos ≥ k then (r, .more (r.datalen - r.bufpos - k)) else
+  if r.datalen - r.bufpos ≥ k then (r, some (.more (r.datalen - r.bufpos - k))) else
   -- resize
   let r := if r.cap < k then
       { r with cap := max (r.cap * 2) k, datalen := r.datalen - r.bufpos, bufpos := 0 } else r
   -- compact
   let r := if r.cap - r.bufpos < k then { r with datalen := r.datalen - r.bufpos, bufpos := 0 } else r
   fill k (2 * (r.remaining + k) + 1000000) r
+
+/-- the whole environment of one pending wait.  The scripted peer accepts the request before it answers
+    (unless `early`), so both request buffers are written while the first wait is pending. -/
+def readerTurn (r : Reader) (c k : Nat) : Reader × HttpRes.Turn :=
+  let q := r.nq
+  let r := { r with nq := q + 1 }
+  let cancelNow : HttpRes.Turn := { wrote := 0, cancel := true, arrival := .err }
+  if r.cancelWait == some (q + 1) then (r, cancelNow) else
+  match (if q == 0 then r.failWrote else none) with
+  | some w => (r, { wrote := w, wfail := true, arrival := .err })
+  | none =>
+  let wrote := if q == 0 then 2 else 0
+  if armed r then (r, { cancelNow with wrote := wrote }) else
+  match readerWait r c k with
+  | (r', none) => (r', { cancelNow with wrote := wrote })
+  | (r', some a) => (r', { wrote := wrote, arrival := a })
 
 def glibcOvf (neg : Bool) (mag : Nat) : Int :=
   -- strtol clamps to long, the store truncates to int
@@ -151,36 +185,59 @@ def specAgrees (c : Cfg) (got : Option Http.Resp) : Bool :=
     | some g => g.status == (r.final.status : Int) && g.headers == Spec.HttpResp.expectedHeaders r && g.body == some body
     | none => false
 
+/-- run-length encoding of a list of tokens: `x*n` for `n > 1` consecutive copies -/
+def rle : List String → String
+  | [] => "-"
+  | x :: xs =>
+    let rec go (cur : String) (n : Nat) (rest : List String) (acc : List String) : List String :=
+      let tok := if n == 1 then cur else s!"{cur}*{n}"
+      match rest with
+      | [] => (tok :: acc).reverse
+      | y :: ys => if y == cur then go cur (n + 1) ys acc else go y 1 ys (tok :: acc)
+    ",".intercalate (go x 1 xs [])
+
+/-- the allocations at every wait: `own/total/regs`; with an early-answering peer the writer's progress is not
+    scripted, so only `http.c`'s own blocks are compared -/
+def showTrace (early : Bool) (tr : List HttpRes.Snap) : String :=
+  rle (tr.map fun s => if early then s!"{s.own}/*/*" else s!"{s.own}/{s.total}/{s.regs}")
+
 def runCase (c : Cfg) (generic : Bool) : String :=
   match HttpRequest.serializeRequest c.req with
   | none => "abort request-length-assert"
   | some reqb =>
-  let tail := "live=0 fds=0"
-  let fin (cb : Nat) (res : String) (sent : String) (waits : List Nat) (rok : Bool) : String :=
+  let fin (cb : Nat) (res : String) (sent : String) (rok : Bool) (r : HttpRes.RSt) (tr : List HttpRes.Snap) : String :=
+    let tail := s!"live={r.total} fds={r.fds} regs={r.regs}"
     if generic then s!"cb={cb} range={if rok then "ok" else "bad"} sent={sent} {tail}"
-    else s!"cb={cb} {res} sent={sent} {tail} | waits={showWaits waits}"
-  if c.cancel == some 0 then fin 0 "none" "-" [] true else
-  if c.conn ≥ 2 then fin 1 "fail" "-" [] true else
-  if c.cancel == some 1 then fin 0 "none" "-" [1] true else
-  let sendFails := match c.sndfail with
-    | some n => !c.early && n < reqb.length
-    | none => false
-  if sendFails then
-    let n := match c.sndfail with | some n => n | none => 0
-    fin 1 "fail" (hex (reqb.take n)) [1] true
-  else
+    else s!"cb={cb} {res} sent={sent} {tail} | waits={showWaits (tr.map (·.k))} res={showTrace c.early tr}"
+  let headLen := HttpRequest.headLen c.req
+  let failAt : Option Nat := match c.sndfail with
+    | some n => if !c.early && n < reqb.length then some n else none
+    | none => none
   let data := c.chunks.reverse.flatten
-  let rd : Reader := { cap := Gen.Http.READER_BUF, remaining := data.length, seg := segOf c, endReset := c.endReset }
+  let rd : Reader := { cap := Gen.Http.READER_BUF, remaining := data.length, seg := segOf c, endReset := c.endReset,
+                       cancelWait := c.cancel, cancelRecv := c.cancelRecv,
+                       failWrote := failAt.map fun n => if !c.req.body.isEmpty && n ≥ headLen then 1 else 0 }
+  let pre : HttpRes.Pre := if c.cancel == some 0 then .cancel else if c.conn ≥ 2 then .refused else .connected
   let sentAll := if c.early then "*" else hex reqb
-  match Http.runAll glibcOvf readerWait rd (HttpRequest.isHead c.req) c.limit data with
-  | .abort why ws => s!"abort {why} | waits={showWaits ws}"
-  | .callback r ws =>
-    if !(specAgrees c r) then s!"spec-mismatch model-decoded: {showResp r}" else
-    match c.cancel with
-    | some k =>
-      if k ≤ ws.length then fin 0 "none" sentAll (ws.take k) true
-      else fin 1 (showResp r) sentAll ws (rangeOk c.limit r)
-    | none => fin 1 (showResp r) sentAll ws (rangeOk c.limit r)
+  match HttpRes.runAllR glibcOvf readerTurn rd (HttpRequest.isHead c.req) c.limit data (!c.req.body.isEmpty) pre with
+  | .abort why tr => s!"abort {why} | waits={showWaits (tr.map (·.k))}"
+  | .ended cbs cancelled r tr =>
+    match r.err with
+    | some e => s!"abort resource-fault: {e} | waits={showWaits (tr.map (·.k))}"
+    | none =>
+    if cancelled then
+      -- nothing was sent yet when the caller cancels right after http_request() or right after the first wait
+      fin cbs.length "none" (if c.early then "*" else if c.cancel == some 0 || c.cancel == some 1 then "-" else sentAll) true r tr
+    else
+    match cbs with
+    | [resp] =>
+      let sent := if c.early then "*" else match pre, failAt with
+        | .refused, _ => "-"
+        | _, some n => hex (reqb.take n)
+        | _, none => sentAll
+      if !(specAgrees c resp) then s!"spec-mismatch model-decoded: {showResp resp}" else
+      fin 1 (showResp resp) sent (rangeOk c.limit resp) r tr
+    | _ => s!"abort model: {cbs.length} callbacks"
 
 def parseNats (s : String) : Array Nat :=
   ((s.splitOn ",").filterMap (·.toNat?)).toArray
@@ -272,9 +329,13 @@ def step (c : Cfg) (toks : List String) : Cfg × String :=
       | _ => (c, "bad-op")
     | _, _, _ => (c, "bad-op")
   | ["opt", conn, _sndmax, sf, cn, early] =>
-    match conn.toNat?, optNat sf, optNat cn with
-    | some conn, some sf, some cn =>
-      ({ c with conn := conn, sndfail := sf, cancel := cn, early := early == "1" }, "ok")
+    -- cancel: `-` | k (right after the k-th wait; 0: right after http_request) | r<j> (after the j-th recv())
+    let cn' : Option (Option Nat × Option Nat) :=
+      if cn.startsWith "r" then (cn.drop 1).toString.toNat?.map fun j => (none, some j)
+      else (optNat cn).map fun k => (k, none)
+    match conn.toNat?, optNat sf, cn' with
+    | some conn, some sf, some (cw, cr) =>
+      ({ c with conn := conn, sndfail := sf, cancel := cw, cancelRecv := cr, early := early == "1" }, "ok")
     | _, _, _ => (c, "bad-op")
   | ["wfb", minor, status, reason, hl] =>
     match minor.toNat?, status.toNat?, unhex reason, parseHdrList hl with
